@@ -2,7 +2,7 @@
    plain text and line breaks, the children that _TextParser builds flatten to the payload's characters,
    each with exactly the styles of the tags that enclose it. *)
 From TT Require Import Base.Prelude Base.SrtTypes Gen.SrtTables Model.SrtReader Spec.SrtCueSpec
-  Proofs.C10.Lines Proofs.C10.Text Proofs.C10.Roundtrip.
+  Proofs.C10.Lines Proofs.C10.Text Proofs.C10.Roundtrip Proofs.C10.Font.
 Local Open Scope Z_scope.
 
 (* ------------------------------------------------------------------ induction over nodes *)
@@ -39,6 +39,15 @@ Lemma angle_tag k sy body : angle_node (NTag k sy body) = negb (is_brace sy) && 
 Proof. reflexivity. Qed.
 Lemma wf_tag k sy body : wf_node (NTag k sy body) = forallb wf_node body.
 Proof. cbn [wf_node]. induction body as [|x l IH]; [reflexivity|]. cbn [forallb]. rewrite <- IH. reflexivity. Qed.
+
+Lemma print_font c q body : print_node (NFont c q body) = open_font c q ++ print_nodes body ++ close_font.
+Proof. reflexivity. Qed.
+Lemma items_font s c q body : items s (NFont c q body) = items_list (with_color (colspec_rgba c) s) body.
+Proof. cbn [items]. induction body as [|x l IH]; [reflexivity|]. cbn [items_list]. rewrite <- IH. reflexivity. Qed.
+Lemma angle_font c q body : angle_node (NFont c q body) = forallb angle_node body.
+Proof. reflexivity. Qed.
+Lemma wf_font c q body : wf_node (NFont c q body) = wf_colspec c && forallb wf_node body.
+Proof. reflexivity. Qed.
 
 Lemma flat_span inh s kids : flat inh (ESpan s kids) = flat_list (inherit inh s) kids.
 Proof. cbn [flat]. induction kids as [|x l IH]; [reflexivity|]. cbn [flat_list]. rewrite <- IH. reflexivity. Qed.
@@ -197,7 +206,34 @@ Proof.
     rewrite V3, V2. unfold pview at 1. cbn [rev items_of_text flat_map view flat_list]. rewrite !app_nil_r.
     rewrite V1. rewrite items_tag. f_equal.
     cbn [style_of]. unfold stk. rewrite inherit_tag. rewrite (style_of_shape fs1 fs) by auto. reflexivity.
-  - intros c q body _ H. discriminate.
+  - (* NFont *) intros c q body IH Ha Hw pend fs pk X A.
+    rewrite angle_font in Ha. rewrite wf_font in Hw. apply andb_true_iff in Hw as [Wc Hw].
+    rewrite print_font. repeat rewrite <- app_assoc.
+    rewrite tok_font by auto.
+    destruct (handle_flush pend fs pk (TStart t_font [(t_color, Some (print_colspec c))] :: tok O [] (print_nodes body ++ close_font ++ X)) A)
+      as (fs1 & pk1 & E1 & V1 & S1).
+    rewrite E1. cbn [handle handle_start]. rewrite font_style_spec by auto.
+    set (stk := mkSt false false false (Some (colspec_rgba c))).
+    destruct (IH Ha Hw [] ((stk, []) :: fs1) pk1 (close_font ++ X) eq_refl)
+      as (pend2 & fs2 & pk2 & E2 & A2 & S2 & V2).
+    rewrite E2. rewrite tok_close_font.
+    destruct (handle_flush pend2 fs2 pk2 (TEnd :: tok O [] X) A2) as (fs3 & pk3 & E3 & V3 & S3).
+    rewrite E3. cbn [handle].
+    rewrite S2 in S3. cbn [map fst] in S3.
+    destruct fs3 as [|[s3 k3] fs3']; [discriminate|]. cbn [map fst] in S3. injection S3 as S3a S3b. subst s3.
+    cbn [handle_end].
+    pose proof (view_push fs3' pk3 [ESpan stk k3]) as VP.
+    destruct (push_kids fs3' pk3 [ESpan stk k3]) as [fs4 pk4|]; [|contradiction].
+    destruct VP as (V4 & S4).
+    exists [], fs4, pk4. split; [reflexivity|]. split; [reflexivity|].
+    split; [congruence|].
+    unfold pview at 1. cbn [rev items_of_text flat_map]. rewrite app_nil_r.
+    rewrite V4. cbn [flat_list]. rewrite flat_span, app_nil_r.
+    assert (Sin : inherit (style_of fs3') stk = style_of ((stk, k3) :: fs3')) by reflexivity.
+    rewrite Sin. change (view fs3' pk3 ++ flat_list (style_of ((stk, k3) :: fs3')) k3) with (view ((stk, k3) :: fs3') pk3).
+    rewrite V3, V2. unfold pview at 1. cbn [rev items_of_text flat_map view flat_list]. rewrite !app_nil_r.
+    rewrite V1. rewrite items_font. f_equal.
+    cbn [style_of]. unfold stk. rewrite inherit_color. rewrite (style_of_shape fs1 fs) by auto. reflexivity.
   - intros k sy H. discriminate.
   - (* nil *) intros _ _ pend fs pk X A. exists pend, fs, pk. cbn [print_nodes app items_list]. rewrite app_nil_r. auto.
   - (* cons *) intros x l IHx IHl Ha Hw pend fs pk X A. cbn [forallb] in *.
@@ -229,7 +265,10 @@ Proof.
     { destruct k, sy; try discriminate; repeat split. }
     destruct O as (O1 & O2 & O3 & O4).
     split; repeat (first [assumption | apply lacks_app | apply no_cr_app]).
-  - intros c q body _ H. discriminate.
+  - intros c q body IH Ha Hw. rewrite angle_font in Ha. rewrite wf_font in Hw. apply andb_true_iff in Hw as [Wc Hw].
+    destruct (IH Ha Hw) as [A B]. rewrite print_font. destruct (font_open_chars c q Wc) as [O1 O2].
+    assert (O3 : lacks 123 close_font /\ no_cr close_font) by (split; reflexivity). destruct O3 as [O3 O4].
+    split; repeat (first [assumption | apply lacks_app | apply no_cr_app]).
   - intros k sy H. discriminate.
   - intros _ _. split; reflexivity.
   - intros x l IHx IHl Ha Hw. cbn [forallb] in *.
